@@ -706,6 +706,7 @@ func c13(r *core.Run) {
 	gcDirtyRecheck(r, "C13.G2", "a candidate whose gc-index entry was re-keyed by a concurrent access is deleted under its stale key while its chunks are subtracted — the persisted counter drifts from the sum of the per-file counts")
 	dirtyLogRule(r, "C13.G3")
 	readModifyWriteAtomic(r, "C13.Lk2")
+	gcCounterProvenance(r, "C13.P2")
 }
 
 // rmwRule: the batch read-modify-write rule (see Meta of C13). only == nil: every helper and
